@@ -26,6 +26,13 @@ func c11Gen(g *G) {
 	g.Emit("c11.run o,o,vl g0+1+2;w3;u;W;c(rk0/2000,r1/2000);w4;s1000;a2;a1;a0", "rotation-rejects-an-ack")
 	g.Emit("c11.run o g0;w1;fs:1;r0/2000;w2;a0", "store-refuses-the-salt")
 	g.Emit("c11.run o,o fs:2;g0+1;w2;r0/2000;r1/2000;w4;n2005;a0;a1", "store-refuses-the-salt")
+	// a slow session store while two salts are adopted back to back: what ends up stored is the last adopted salt
+	// (the writes reach the store in the order of adoption); a write fault on the acknowledgement of a container's
+	// first member does not make the client skip the rotation that follows in the same container
+	g.Emit("c11.run o,o ds:250:1;g0+1;w2;r0/2001;w3;r1/2002;w4;a0;a1", "slow-store")
+	g.Emit("c11.run o ds:150:2;g0;w1;n2005;r0/2006;w2;n2007;a0", "slow-store")
+	g.Emit("c11.run o,o g0+1;w2;fk:1;c(a0,r1/2000);w3;a1", "ack-fault-before-rotation-in-container")
+	g.Emit("c11.run o,o,o g0+1+2;w3;fk:2;c(u,a0,r1/2000,r2/2000);w5;a1;a2", "ack-fault-before-rotation-in-container")
 	nb := g.N(20, 400)
 	for i := 0; i < nb; i++ {
 		k := 2 + r.Intn(5)
